@@ -150,6 +150,8 @@ struct H {
   size_t n_missing_buffer = 0;
   bool drained_mid = false;
   bool retry_full = true;
+  bool lim_mode = false;  // deliveries may use mpt_queue_load with an explicit read limit
+  size_t piped = 0;       // wire bytes behind `delivered` that are waiting on the descriptor
   size_t open_queued = 0;  // command framing: bytes of the open message that are still in the sender queue
 
   H(Ctx &ctx, int framing) : c(ctx), fr(framing) {
@@ -369,6 +371,52 @@ struct H {
     inv_receiver("prepare");
   }
   // what mpt_stream_poll does when k bytes are readable; returns the number of bytes taken
+  // logical content of the receiver queue, read straight from the storage (independent of mpt_queue_get)
+  std::vector<uint8_t> receiver_content() {
+    std::vector<uint8_t> v(rq->len);
+    for (size_t i = 0; i < rq->len; i++) v[i] = ((uint8_t *)rq->base)[(rq->off + i) % rq->max];
+    return v;
+  }
+  void fill_pipe(size_t n) {  // make n more wire bytes readable on the descriptor
+    if (!n) return;
+    if (pfd[0] < 0) {
+      VP_CHECK(c, pipe(pfd) == 0, "harness", "pipe: %s", strerror(errno));
+      fcntl(pfd[0], F_SETFL, O_NONBLOCK);
+    }
+    VP_CHECK(c, piped + n <= 60000, "harness", "segment too large for the pipe");
+    ssize_t w = write(pfd[1], wire.data() + delivered + piped, n);
+    VP_CHECK(c, w == (ssize_t)n, "harness", "pipe write %zd of %zu", w, n);
+    piped += n;
+  }
+  // mpt_queue_load with a read limit (0 = fill all free space): exactly the next `expect` wire bytes are appended, in order
+  size_t load(size_t limit, size_t expect, const char *why) {
+    size_t space = rq->max - rq->len, lo = 0, hi = 0;
+    bool two = mpt_queue_empty(rd(), &lo, &hi) && expect > lo && hi;
+    std::vector<uint8_t> before = receiver_content();
+    ssize_t r = mpt_queue_load(rd(), pfd[0], limit);
+    c.logf("deliver [%s]: %zu bytes readable %s, mpt_queue_load(limit %zu) = %zd (free %zu = %zu behind + %zu in front of the data)", why, piped, hex(wire.data() + delivered, piped, 24).c_str(), limit, r,
+           space, lo, hi);
+    logq("   ");
+    VP_CHECK(c, r == (ssize_t)expect, "load-short", "mpt_queue_load(limit %zu) returned %zd with %zu readable bytes and %zu bytes free (%zu behind, %zu in front of the data): expected %zu", limit, r,
+             piped, space, lo, hi, expect);
+    inv_queue(rd(), "receiver");
+    VP_CHECK(c, rq->len == before.size() + expect, "load-content", "mpt_queue_load returned %zd, queue length went from %zu to %zu", r, before.size(), rq->len);
+    std::vector<uint8_t> after = receiver_content();
+    for (size_t i = 0; i < before.size(); i++)
+      VP_CHECK(c, after[i] == before[i], "load-content", "mpt_queue_load(limit %zu) changed queued byte %zu of %zu from %02x to %02x", limit, i, before.size(), before[i], after[i]);
+    for (size_t i = 0; i < expect; i++)
+      VP_CHECK(c, after[before.size() + i] == wire[delivered + i], "load-content", "mpt_queue_load(limit %zu): appended byte %zu of %zu is %02x, the byte stream has %02x there (free space was %zu behind + %zu in front of the data)",
+               limit, i, expect, after[before.size() + i], wire[delivered + i], lo, hi);
+    if (two) c.label("receiver:load-two-segments");
+    for (size_t i = 0; i < expect; i++) if (!wire[delivered + i]) ++delivered_frames;
+    delivered += expect;
+    piped -= expect;
+    inv_receiver("load");
+    if (delivered && wire[delivered - 1]) cut_inside = true;
+    if (wrapped(rd())) { c.label("receiver:wrapped"); if (partially_decoded()) { partial_wrap_or_grow = true; c.label("receiver:wrapped-while-partial"); } }
+    return expect;
+  }
+  // what mpt_stream_poll does when k bytes are readable; returns the number of bytes taken
   size_t deliver(size_t k, const char *why) {
     mpt_queue_shift(rq);
     inv_receiver("shift");
@@ -376,28 +424,46 @@ struct H {
     size_t space = rq->max - rq->len;
     if (k > space) k = space;
     if (!k) return 0;
-    if (pfd[0] < 0) {
-      VP_CHECK(c, pipe(pfd) == 0, "harness", "pipe: %s", strerror(errno));
-      fcntl(pfd[0], F_SETFL, O_NONBLOCK);
+    if (k > piped) fill_pipe(k - piped);  // bytes an earlier limited load left on the descriptor come first
+    return load(0, piped < space ? piped : space, why);
+  }
+  // limited-load mode: write a drawn portion to the descriptor, then mpt_queue_load with a drawn read limit
+  void op_deliver_limited() {
+    mpt_queue_shift(rq);
+    inv_receiver("shift");
+    grow_receiver_if_full();
+    size_t pend = wire.size() - delivered - piped;
+    if (pend) {
+      size_t n;
+      switch (c.weighted({3, 2, 1})) {
+        case 0: n = pend; break;
+        case 1: n = c.range(1, pend); break;
+        default: n = piped ? 0 : 1;
+      }
+      if (piped + n > 4096) n = piped < 4096 ? 4096 - piped : 0;
+      fill_pipe(n);
     }
-    VP_CHECK(c, k <= 60000, "harness", "segment too large for the pipe");
-    ssize_t w = write(pfd[1], wire.data() + delivered, k);
-    VP_CHECK(c, w == (ssize_t)k, "harness", "pipe write %zd of %zu", w, k);
-    bool two = false;
-    { size_t lo = 0, hi = 0; if (mpt_queue_empty(rd(), &lo, &hi) && k > lo && hi) two = true; }
-    ssize_t r = mpt_queue_load(rd(), pfd[0], 0);
-    c.logf("deliver %zu bytes [%s] %s: mpt_queue_load = %zd", k, why, hex(wire.data() + delivered, k, 24).c_str(), r);
-    logq("   ");
-    VP_CHECK(c, r == (ssize_t)k, "load-short", "mpt_queue_load took %zd of %zu readable bytes with %zu bytes free", r, k, space);
-    if (two) c.label("receiver:load-two-segments");
-    for (size_t i = 0; i < k; i++) if (!wire[delivered + i]) ++delivered_frames;
-    delivered += k;
-    inv_receiver("load");
-    if (delivered < wire.size() ? true : (wire.empty() || wire.back())) {
-      if (delivered && wire[delivered - 1]) { cut_inside = true; }
+    if (!piped) return;
+    size_t space = rq->max - rq->len, lo = 0, hi = 0;
+    VP_CHECK(c, mpt_queue_empty(rd(), &lo, &hi) && lo + hi == space && space, "queue-invariant", "mpt_queue_empty reports %zu + %zu free bytes, max - len = %zu", lo, hi, space);
+    size_t limit;
+    const char *why;
+    switch (c.weighted({2, 2, 4, 2, 2, 1, 1})) {
+      case 0: limit = 0; why = "limit 0"; break;
+      case 1: limit = 1; why = "limit 1"; break;
+      case 2: limit = lo > 1 ? c.range(1, lo - 1) : 1; why = "limit < space behind the data"; break;
+      case 3: limit = lo; why = "limit == space behind the data"; break;
+      case 4: limit = hi > 1 ? lo + c.range(1, hi - 1) : lo; why = "limit inside the space in front of the data"; break;
+      case 5: limit = space; why = "limit == free space"; break;
+      default: limit = space + c.range(1, 70); why = "limit > free space"; break;
     }
-    if (wrapped(rd())) { c.label("receiver:wrapped"); if (partially_decoded()) { partial_wrap_or_grow = true; c.label("receiver:wrapped-while-partial"); } }
-    return k;
+    size_t expect = limit && limit < space ? limit : space;
+    if (expect > piped) expect = piped;
+    c.label("load:limited-mode");
+    if (limit && limit < lo && hi && piped > limit) c.label("load:limit<behind,front-free,more-waiting");  // the constellation in which a forgotten second iovec shows
+    if (limit && limit > lo && limit < space) c.label("load:limit-splits-front");
+    if (limit > space) c.label("load:limit>free");
+    load(limit, expect, why);
   }
   // interesting cut points inside the undelivered wire bytes (absolute indices, > delivered)
   void cuts(std::vector<size_t> &after_code, std::vector<size_t> &after_delim) {
@@ -418,6 +484,7 @@ struct H {
     }
   }
   void op_deliver() {
+    if (lim_mode && c.weighted({1, 2})) { op_deliver_limited(); return; }
     size_t pend = wire.size() - delivered;
     if (!pend) return;
     std::vector<size_t> ac, ad;
@@ -876,13 +943,14 @@ static void run(Ctx &c) {
   if (sel >= 0xf8) fr = FCommand;
   if (sel >= 0xe0) { run_streams(c, fr); return; }
   H h(c, fr);
+  h.lim_mode = (sel & 0x10) != 0;  // appended: half of the queue-scenario selectors (none of the committed inputs) draw read limits for mpt_queue_load
   h.run();
 }
 
 static Target t = {
     "C02",
     "random: framing (4 COBS dialects; 1 case in 7: zero-terminated command text, zero-free messages, receiver gets header 04 20 + text) x history over {push chunk, end message, flush k, deliver k, receive, peek, grow sender, grow receiver} on an encode_queue/decode_queue pair driven "
-    "like mptio/stream drives them (flush = crop + done -= k; deliver = shift, prepare(64) when full, mpt_queue_load from a pipe; receive = recv, mpt_message_get/read, recv as stream_dispatch); "
+    "like mptio/stream drives them (flush = crop + done -= k; deliver = shift, prepare(64) when full, mpt_queue_load from a pipe, in half of the cases with a drawn read limit (0, 1, </==/> the free space behind the data, == / > all free space) and more bytes waiting than the limit, queue content compared with the byte stream after every load; receive = recv, mpt_message_get/read, recv as stream_dispatch); "
     "run-structured messages; both queues start with a drawn capacity (0, 8..512) and wrap offset made by pushing and removing dummy bytes; cuts biased to after a code byte / after or before the "
     "delimiter / single bytes; 1 case in 8: two real mpt_stream objects over socketpairs with the harness re-cutting the byte stream. exhaustive: two messages of length <= 2 over a boundary "
     "alphabet x 4 framings x every segmentation of the wire x 2 receiver start offsets. non-trivial: >= 2 messages, >= 1 cut inside a frame and (queue scenario) the receiver queue wrapped or "
